@@ -386,10 +386,10 @@ func c04Run(c *core.Ctx, r *core.Result, ch c04Chain) {
 			zero(newBurn, nil)
 		}
 		mintList := map[string]bool{}
-		for _, m := range node.MintTotalSupplyMap {
-			mintList[m.Ticker.String()] = true
+		for t, amt := range c15MintList { // the harness' own copy of the 2.0.4 supply
+			mintList[t] = true
 			if h == era.V204 {
-				exp.add(mint, m.Ticker.String(), int64(m.Amount*1e8))
+				exp.add(mint, t, int64(amt*1e8))
 				events++
 			}
 		}
